@@ -768,7 +768,7 @@ func runGovHistory(opt GovOptions, c int, r *rng.R, res *Result, rec *govRecordi
 	if rec != nil {
 		p, pass, awkward = rec.P, rec.Pass, rec.Awkward
 	} else {
-		p = paramsFor(r, opt.Seed*1000+uint64(c))
+		p = paramsBase(r, opt.Seed*1000+uint64(c))
 		p.GenesisMatures = 0
 		p.Witnesses = 0
 		switch {
